@@ -129,6 +129,11 @@ fn main() {
     if ctx.has("meta") || ctx.has("enc") || ctx.has("dec") || ctx.has("app") || ctx.has("decalloc") {
         generated::run_catalogue(&mut ctx);
     }
+    if ctx.has("derive") && shard.0 == 0 {
+        for (d, e, r) in generated::derive_defs() {
+            ctx.line(&format!("derive\t{}\t{}\t{}", d, e, r));
+        }
+    }
     extra::run(&mut ctx, &args);
     let n = ctx.lines;
     drop(ctx);
